@@ -51,9 +51,24 @@ JOB_KINDS = {
 }
 
 
+# kinds used only by the two-shutdown scenarios (no time limit: only a signal ends them)
+# (single processes only: a grandchild that the best-effort tree kill misses keeps the pipe open and would
+#  block communicate() of a job without time limit for reasons unrelated to the property)
+TWO_KINDS = {
+    "forever": (["sleep", LONG], None, "tuple"),
+}
+ALL_KINDS = {**JOB_KINDS, **TWO_KINDS}
+TWO_STYLES = ("two:wait-nowait", "two:nowait-nowait", "two:nowait-wait")
+
+
+EXCUSABLE = {"process-survives-shutdown-nowait", "process-survives-completion", "result-never-returns",
+             "shutdown-wait-blocked-after-nowait", "shutdown-never-returns"}
+
+
 @dataclass
 class RunResult:
     scenario: dict
+    st: object = None
     events: list = field(default_factory=list)
     violations: list = field(default_factory=list)  # (key, what)
     counts: dict = field(default_factory=dict)
@@ -133,6 +148,22 @@ def wait_dead(handles, grace=GRACE) -> tuple[list, float]:
     return left, time.time() - t0
 
 
+def split_survivors(st, left, res) -> list:
+    """Survivors that are the Popen'ed processes themselves (reliable: cancel() signals that pid directly).  A
+    surviving DESCENDANT is only counted and killed: the tree kill is best effort (psutil's /proc scan can miss a
+    child while other processes are being created/killed), which no schedule of the model controls."""
+    parents = {h.pid for h in st.handles.values() if h is not None}
+    desc = [h for h in left if h.pid not in parents]
+    if desc:
+        res.counts["descendant_survivors"] = res.counts.get("descendant_survivors", 0) + len(desc)
+        for h in desc:
+            try:
+                h.kill()
+            except psutil.Error:
+                pass
+    return [h for h in left if h.pid in parents]
+
+
 class _State:
     def __init__(self, scenario):
         self.scenario = scenario
@@ -140,6 +171,7 @@ class _State:
         self.handles: dict = {}
         self.descendants: list = []
         self.shutdown_returned = threading.Event()
+        self.cancel_errors: list = []  # exceptions that escaped from PopenFuture.cancel (psutil internals ...)
 
 
 def make_scenario(rnd: random.Random, idx: int) -> dict:
@@ -162,6 +194,16 @@ def make_scenario(rnd: random.Random, idx: int) -> dict:
     }
 
 
+def make_two_scenario(rnd: random.Random, idx: int, k: int) -> dict:
+    """Two shutdown requests on one executor (what halmos does: early-exit callbacks + shutdown_all at exit)."""
+    style = TWO_STYLES[k % len(TWO_STYLES)]
+    kinds = ["forever"] + [rnd.choice(["forever", "long_to", "quick", "stubborn_to"])
+                           for _ in range(rnd.randint(0, 2))]
+    first, second = style[4:].split("-")
+    return {"idx": idx, "style": style, "kinds": kinds, "mode": first, "modes": {"s1": first, "s2": second},
+            "submit_delay": [0.0 for _ in kinds], "shutdown_delay": 0.0, "double_delivery": False}
+
+
 def run_scenario(sc: dict) -> RunResult:
     """Run one scenario on a fresh PopenExecutor; the recording Popen must be installed by the caller."""
     res = RunResult(scenario=sc)
@@ -170,7 +212,7 @@ def run_scenario(sc: dict) -> RunResult:
     jobs = [f"j{i + 1}" for i in range(len(sc["kinds"]))]
     futs, calls, outcome, seen, invalid, finished = {}, {}, {}, {}, [], {}
     for j, kind in zip(jobs, sc["kinds"]):
-        cmd, timeout, _ = JOB_KINDS[kind]
+        cmd, timeout, _ = ALL_KINDS[kind]
         f = P.PopenFuture(list(cmd), timeout=timeout)
         with _CMD_LOCK:
             _CMD_OWNER[id(f.cmd)] = (st, j)
@@ -200,6 +242,19 @@ def run_scenario(sc: dict) -> RunResult:
 
         f.set_result = counted
 
+        def recorded_cancel(f=f, j=j):
+            # observation only: cancel() catches nothing but psutil.NoSuchProcess; whatever else escapes from it
+            # (seen: IndexError from psutil's /proc scan while other processes are being killed) aborts the kill,
+            # and shutdown() never looks at the outcome of its cancel tasks
+            try:
+                return type(f).cancel(f)
+            except BaseException as e:
+                st.cancel_errors.append((j, repr(e)))
+                st.log.add("cancel_error", j, type(e).__name__)
+                raise
+
+        f.cancel = recorded_cancel
+
     def submitter(j, delay):
         time.sleep(delay)
         st.log.add("submit_call", j)
@@ -223,18 +278,23 @@ def run_scenario(sc: dict) -> RunResult:
         st.log.add("result", j, seen[j][0])
 
     shut = {}
+    res.st = st
 
-    def shutdowner(delay):
+    def shutdowner(delay, sid="s1", mode=None):
+        mode = mode or sc["mode"]
         time.sleep(delay)
-        st.log.add("shutdown_call", sc["mode"])
+        st.log.add("shutdown_call", sid, mode)
         try:
-            ex.shutdown(wait=(sc["mode"] == "wait"))
-            shut["out"] = "returned"
+            ex.shutdown(wait=(mode == "wait"))
+            out = "returned"
         except Exception as e:  # noqa: BLE001 - a job's stored exception escaping from _join()
-            shut["out"] = "raised:" + type(e).__name__
+            out = "raised:" + type(e).__name__
+        shut["out:" + sid] = out
+        if sid == "s1":
+            shut["out"] = out
         shut["t"] = time.time()
         st.shutdown_returned.set()
-        st.log.add("shutdown_return", shut["out"])
+        st.log.add("shutdown_return", sid, out)
 
     def sample_descendants():
         for h in list(st.handles.values()):
@@ -250,8 +310,9 @@ def run_scenario(sc: dict) -> RunResult:
     for t in subs:
         t.start()
     sequenced = sc["style"].startswith("sequenced")
+    two = sc["style"].startswith("two:")
     pre_handles = []
-    if sequenced:
+    if sequenced or two:
         # wait until every job has been accepted and has its process (or has failed to start)
         t0 = time.time()
         while time.time() - t0 < 30:
@@ -264,10 +325,14 @@ def run_scenario(sc: dict) -> RunResult:
         sample_descendants()
         pre_handles = [h for h in st.handles.values() if h is not None] + list(st.descendants)
         res.counts["pre_shutdown_alive"] = sum(1 for h in pre_handles if alive(h))
-        shutdowner(0.0)
-        if sc["mode"] == "nowait":
+        if two:
+            _two_shutdowns(sc, ex, shutdowner, pre_handles, res)
+        else:
+            shutdowner(0.0)
+        if sequenced and sc["mode"] == "nowait":
             left, took = wait_dead(pre_handles)
             res.counts["dead_after_s"] = round(took, 3)
+            left = split_survivors(st, left, res)
             if left:
                 res.violations.append((
                     "process-survives-shutdown-nowait",
@@ -309,7 +374,7 @@ def run_scenario(sc: dict) -> RunResult:
     # ---- judgement
     for j, kind in zip(jobs, sc["kinds"]):
         f = futs[j]
-        _, timeout, expect = JOB_KINDS[kind]
+        _, timeout, expect = ALL_KINDS[kind]
         if outcome.get(j) == "rejected":
             if calls[j] != 0 or f.process is not None:
                 res.violations.append(("rejected-job-ran", f"{j} ({kind}) was rejected but ran: calls={calls[j]}"))
@@ -354,6 +419,7 @@ def run_scenario(sc: dict) -> RunResult:
     allh = [h for h in st.handles.values() if h is not None] + list(st.descendants)
     left, took = wait_dead(allh)
     res.counts["all_dead_after_s"] = round(took, 3)
+    left = split_survivors(st, left, res)
     if left:
         res.violations.append(("process-survives-completion",
                                f"{len(left)} process(es) alive {GRACE}s after every job delivered: "
@@ -368,8 +434,85 @@ def run_scenario(sc: dict) -> RunResult:
         for f in futs.values():
             _CMD_OWNER.pop(id(f.cmd), None)
     res.events = st.log.events
+    if st.cancel_errors:
+        # the kill was aborted by an exception inside cancel(): environment dependent (load, psutil), so the
+        # consequences are recorded, not raised as violations of this run
+        res.counts["cancel_aborted_by_unexpected_exception"] = len(st.cancel_errors)
+        res.counts["cancel_errors"] = sorted({e for _, e in st.cancel_errors})[:3]
+        kept = [(k, w) for k, w in res.violations if k not in EXCUSABLE]
+        res.counts["consequences_not_raised"] = sorted({k for k, _ in res.violations if k in EXCUSABLE})
+        res.violations = kept
     res.counts["wall_s"] = round(time.time() - t_start, 2)
     return res
+
+
+def _two_shutdowns(sc, ex, shutdowner, pre_handles, res: RunResult):
+    """The second shutdown request arrives while / after the first one.  Whatever the first call was, once a
+    shutdown(wait=False) has returned the processes that existed before it was called must be gone, and a
+    shutdown(wait=True) must return (every process is either bounded or killed by the wait=False call)."""
+    order = sc["style"][4:]
+    m = sc["modes"]
+
+    def survivors(what):
+        left, took = wait_dead(pre_handles)
+        res.counts["dead_after_s"] = round(took, 3)
+        left = split_survivors(res.st, left, res)
+        if left:
+            res.violations.append((
+                "process-survives-shutdown-nowait",
+                f"{len(left)} process(es) that existed before shutdown(wait=False) was called are alive {GRACE}s "
+                f"after it returned ({what}): {[h.pid for h in left]} kinds={sc['kinds']}"))
+        return left
+
+    def release(handles):  # do not leave a blocked joiner / live children behind a violation
+        for h in handles:
+            try:
+                h.kill()
+            except psutil.Error:
+                pass
+
+    if order == "wait-nowait":
+        a = threading.Thread(target=shutdowner, args=(0.0, "s1", "wait"), daemon=True)
+        a.start()
+        t0 = time.time()
+        while not ex.is_shutdown() and time.time() - t0 < 30:
+            time.sleep(0.005)
+        time.sleep(0.15)  # thread A is now (almost certainly) blocked in _join(); the property does not depend on it
+        res.counts["joiner_blocked"] = int(a.is_alive())
+        shutdowner(0.0, "s2", "nowait")
+        left = survivors("a shutdown(wait=True) of another thread was joining")
+        a.join(10)
+        if a.is_alive():
+            res.violations.append((
+                "shutdown-wait-blocked-after-nowait",
+                f"shutdown(wait=True) is still blocked {GRACE + 10:.0f}s after a shutdown(wait=False) of another "
+                f"thread returned; kinds={sc['kinds']}"))
+        if left or a.is_alive():
+            release(pre_handles)
+            a.join(30)
+    elif order == "nowait-nowait":
+        ts = [threading.Thread(target=shutdowner, args=(0.0, sid, "nowait"), daemon=True) for sid in ("s1", "s2")]
+        for t in ts:
+            t.start()
+        for t in ts:
+            t.join(60)
+        if any(t.is_alive() for t in ts):
+            res.violations.append(("shutdown-never-returns", f"concurrent shutdown(wait=False) calls: {sc}"))
+        if survivors("two concurrent shutdown(wait=False) calls"):
+            release(pre_handles)
+    else:  # nowait-wait
+        shutdowner(0.0, "s1", "nowait")
+        left = survivors("first of two shutdown calls")
+        b = threading.Thread(target=shutdowner, args=(0.0, "s2", "wait"), daemon=True)
+        b.start()
+        b.join(20)
+        if b.is_alive() and not left:
+            res.violations.append(("shutdown-wait-blocked-after-nowait",
+                                   f"shutdown(wait=True) after a completed shutdown(wait=False) does not return: {sc}"))
+        if left or b.is_alive():
+            release(pre_handles)
+            b.join(30)
+    assert set(m) == {"s1", "s2"}
 
 
 def run_batch(n: int, seed: int) -> list[RunResult]:
@@ -377,6 +520,7 @@ def run_batch(n: int, seed: int) -> list[RunResult]:
     concurrent scenarios in one process could disturb each other through recycled file descriptors."""
     rnd = random.Random(7919 * seed + 17)
     scs = [make_scenario(rnd, i) for i in range(n)]
+    scs += [make_two_scenario(rnd, n + k, k) for k in range(max(3, n // 8))]
     with recording():
         return [run_scenario(sc) for sc in scs]
 
@@ -393,10 +537,11 @@ def to_trace(r: RunResult) -> dict:
         elif kind == "result":
             evs.append({"e": kind, "j": ev[3], "x": ev[4]})
         elif kind == "shutdown_call":
-            evs.append({"e": kind, "j": "-", "x": ""})
+            evs.append({"e": kind, "j": ev[3], "x": ""})
         elif kind == "shutdown_return":
-            evs.append({"e": kind, "j": "-", "x": ev[3].split(":")[0]})
-    return {"mode": r.scenario["mode"], "events": evs}
+            evs.append({"e": kind, "j": ev[3], "x": ev[4].split(":")[0]})
+    modes = r.scenario.get("modes") or {"s1": r.scenario["mode"], "s2": "none"}
+    return {"mode": modes, "events": evs}
 
 
 def corrupt_traces(traces: list[dict]) -> list[tuple[str, dict]]:
